@@ -151,9 +151,10 @@ type ilFile struct {
 }
 
 type ilHelper struct {
-	fn   *types.Func
-	decl *ast.FuncDecl
-	f    *ilFile
+	fn       *types.Func
+	decl     *ast.FuncDecl
+	f        *ilFile
+	tailOnly bool // contains defer: only expanded where the call is the last statement of the enclosing function
 }
 
 type retCtx struct {
@@ -195,7 +196,25 @@ func applySubs(src []byte, a, b int, subs []sub) string {
 }
 
 // inlinable checks the declaration-level conditions.
-func inlinableDecl(fd *ast.FuncDecl, f *ilFile) (bool, string) {
+func inlinableDecl(fd *ast.FuncDecl, f *ilFile) (ok bool, why string, tailOnly bool) {
+	ok, why = inlinableDecl0(fd, f)
+	if !ok && why == "defer" {
+		// a helper with defer statements can still be expanded where its call is the last thing the
+		// enclosing function does: its deferred calls then run at the same moment and in the same order.
+		// Named results that a deferred closure could modify are excluded.
+		if fd.Type.Results != nil {
+			for _, fld := range fd.Type.Results.List {
+				if len(fld.Names) > 0 {
+					return false, "defer with named results", false
+				}
+			}
+		}
+		return true, "", true
+	}
+	return ok, why, false
+}
+
+func inlinableDecl0(fd *ast.FuncDecl, f *ilFile) (bool, string) {
 	if fd.Body == nil {
 		return false, "no body"
 	}
@@ -234,7 +253,7 @@ func inlinableDecl(fd *ast.FuncDecl, f *ilFile) (bool, string) {
 				walk(x.Body, false)
 				return false
 			case *ast.DeferStmt:
-				if top {
+				if top && bad == "" {
 					bad = "defer"
 				}
 			case *ast.LabeledStmt:
@@ -289,7 +308,7 @@ func fileImports(info *types.Info, f *ast.File) map[string]string {
 }
 
 // siteCall: the call expression if statement-level expression e is a call of an inlinable helper.
-func (il *inliner) siteCall(f *ilFile, e ast.Expr) (*ast.CallExpr, *ilHelper) {
+func (il *inliner) siteCall(f *ilFile, e ast.Expr, tail bool) (*ast.CallExpr, *ilHelper) {
 	call, ok := e.(*ast.CallExpr)
 	if !ok || call.Ellipsis.IsValid() {
 		return nil, nil
@@ -323,7 +342,7 @@ func (il *inliner) siteCall(f *ilFile, e ast.Expr) (*ast.CallExpr, *ilHelper) {
 		return nil, nil
 	}
 	h := il.helpers[fn]
-	if h == nil || il.expanding[fn] {
+	if h == nil || il.expanding[fn] || (h.tailOnly && !tail) {
 		return nil, nil
 	}
 	// imports the body and the signature need must be available under the same names in this file
@@ -520,9 +539,15 @@ func renderReturn(ret *retCtx, vals string, n int) string {
 }
 
 func (il *inliner) collectStmts(f *ilFile, list []ast.Stmt, ret *retCtx) []sub {
+	return il.collectStmtsT(f, list, ret, false)
+}
+
+// collectStmtsT: funcBody says that list is the whole body of a function (declaration or literal), so
+// its last statement is in tail position.
+func (il *inliner) collectStmtsT(f *ilFile, list []ast.Stmt, ret *retCtx, funcBody bool) []sub {
 	var out []sub
-	for _, s := range list {
-		out = append(out, il.collectStmt(f, s, ret)...)
+	for i, s := range list {
+		out = append(out, il.collectStmt(f, s, ret, funcBody && ret == nil && i == len(list)-1)...)
 	}
 	return out
 }
@@ -537,7 +562,7 @@ func (il *inliner) funcLitSubs(f *ilFile, n ast.Node) []sub {
 	ast.Inspect(n, func(m ast.Node) bool {
 		switch x := m.(type) {
 		case *ast.FuncLit:
-			out = append(out, il.collectStmts(f, x.Body.List, nil)...)
+			out = append(out, il.collectStmtsT(f, x.Body.List, nil, true)...)
 			return false
 		case *ast.BlockStmt:
 			return false // statement bodies are walked by collectStmt
@@ -547,7 +572,7 @@ func (il *inliner) funcLitSubs(f *ilFile, n ast.Node) []sub {
 	return out
 }
 
-func (il *inliner) collectStmt(f *ilFile, s ast.Stmt, ret *retCtx) []sub {
+func (il *inliner) collectStmt(f *ilFile, s ast.Stmt, ret *retCtx, tail bool) []sub {
 	mk := func(text string) []sub {
 		if text == "" {
 			return nil
@@ -557,13 +582,13 @@ func (il *inliner) collectStmt(f *ilFile, s ast.Stmt, ret *retCtx) []sub {
 	endLine := f.line(s.End())
 	switch x := s.(type) {
 	case *ast.ExprStmt:
-		if call, h := il.siteCall(f, x.X); h != nil {
+		if call, h := il.siteCall(f, x.X, tail); h != nil {
 			return mk(il.expand(f, call, h, kExpr, "", "", ret, endLine))
 		}
 		return il.funcLitSubs(f, x.X)
 	case *ast.AssignStmt:
 		if len(x.Rhs) == 1 && (x.Tok == token.ASSIGN || x.Tok == token.DEFINE) {
-			if call, h := il.siteCall(f, x.Rhs[0]); h != nil {
+			if call, h := il.siteCall(f, x.Rhs[0], false); h != nil {
 				lhs := f.text(x.Lhs[0].Pos(), x.Lhs[len(x.Lhs)-1].End())
 				return mk(il.expand(f, call, h, kAssign, lhs, x.Tok.String(), ret, endLine))
 			}
@@ -575,7 +600,7 @@ func (il *inliner) collectStmt(f *ilFile, s ast.Stmt, ret *retCtx) []sub {
 		return out
 	case *ast.ReturnStmt:
 		if len(x.Results) == 1 {
-			if call, h := il.siteCall(f, x.Results[0]); h != nil {
+			if call, h := il.siteCall(f, x.Results[0], tail); h != nil {
 				return mk(il.expand(f, call, h, kReturn, "", "", ret, endLine))
 			}
 		}
@@ -596,12 +621,12 @@ func (il *inliner) collectStmt(f *ilFile, s ast.Stmt, ret *retCtx) []sub {
 		}
 		return out
 	case *ast.DeferStmt:
-		if call, h := il.siteCall(f, x.Call); h != nil {
+		if call, h := il.siteCall(f, x.Call, true); h != nil {
 			return mk(il.expand(f, call, h, kDefer, "", "", ret, endLine))
 		}
 		return il.funcLitSubs(f, x.Call)
 	case *ast.GoStmt:
-		if call, h := il.siteCall(f, x.Call); h != nil {
+		if call, h := il.siteCall(f, x.Call, true); h != nil {
 			return mk(il.expand(f, call, h, kGo, "", "", ret, endLine))
 		}
 		return il.funcLitSubs(f, x.Call)
@@ -610,12 +635,12 @@ func (il *inliner) collectStmt(f *ilFile, s ast.Stmt, ret *retCtx) []sub {
 			var initText string
 			switch in := x.Init.(type) {
 			case *ast.ExprStmt:
-				if call, h := il.siteCall(f, in.X); h != nil {
+				if call, h := il.siteCall(f, in.X, false); h != nil {
 					initText = il.expand(f, call, h, kExpr, "", "", ret, f.line(x.Cond.Pos()))
 				}
 			case *ast.AssignStmt:
 				if len(in.Rhs) == 1 && (in.Tok == token.ASSIGN || in.Tok == token.DEFINE) {
-					if call, h := il.siteCall(f, in.Rhs[0]); h != nil {
+					if call, h := il.siteCall(f, in.Rhs[0], false); h != nil {
 						lhs := f.text(in.Lhs[0].Pos(), in.Lhs[len(in.Lhs)-1].End())
 						initText = il.expand(f, call, h, kAssign, lhs, in.Tok.String(), ret, f.line(x.Cond.Pos()))
 					}
@@ -624,9 +649,9 @@ func (il *inliner) collectStmt(f *ilFile, s ast.Stmt, ret *retCtx) []sub {
 			if initText != "" {
 				var inner []sub
 				inner = append(inner, il.funcLitSubs(f, x.Cond)...)
-				inner = append(inner, il.collectStmt(f, x.Body, ret)...)
+				inner = append(inner, il.collectStmt(f, x.Body, ret, false)...)
 				if x.Else != nil {
-					inner = append(inner, il.collectStmt(f, x.Else, ret)...)
+					inner = append(inner, il.collectStmt(f, x.Else, ret, false)...)
 				}
 				tail := applySubs(f.src, f.off(x.Cond.Pos()), f.off(x.End()), inner)
 				return mk("{ " + initText + "; if " + tail + " }")
@@ -634,19 +659,19 @@ func (il *inliner) collectStmt(f *ilFile, s ast.Stmt, ret *retCtx) []sub {
 		}
 		var out []sub
 		out = append(out, il.funcLitSubs(f, x.Cond)...)
-		out = append(out, il.collectStmt(f, x.Body, ret)...)
+		out = append(out, il.collectStmt(f, x.Body, ret, false)...)
 		if x.Else != nil {
-			out = append(out, il.collectStmt(f, x.Else, ret)...)
+			out = append(out, il.collectStmt(f, x.Else, ret, false)...)
 		}
 		return out
 	case *ast.BlockStmt:
 		return il.collectStmts(f, x.List, ret)
 	case *ast.ForStmt:
 		out := il.funcLitSubs(f, x.Cond)
-		return append(out, il.collectStmt(f, x.Body, ret)...)
+		return append(out, il.collectStmt(f, x.Body, ret, false)...)
 	case *ast.RangeStmt:
 		out := il.funcLitSubs(f, x.X)
-		return append(out, il.collectStmt(f, x.Body, ret)...)
+		return append(out, il.collectStmt(f, x.Body, ret, false)...)
 	case *ast.SwitchStmt:
 		var out []sub
 		for _, c := range x.Body.List {
@@ -666,7 +691,7 @@ func (il *inliner) collectStmt(f *ilFile, s ast.Stmt, ret *retCtx) []sub {
 		}
 		return out
 	case *ast.LabeledStmt:
-		return il.collectStmt(f, x.Stmt, ret)
+		return il.collectStmt(f, x.Stmt, ret, false)
 	case *ast.DeclStmt:
 		return il.funcLitSubs(f, x.Decl)
 	}
@@ -722,11 +747,12 @@ func buildOverlay(dir, root string, newKeys map[string]bool, patterns ...string)
 			if fn == nil || fd.Name.Name == "init" || fd.Name.Name == "main" {
 				continue
 			}
-			if ok, why := inlinableDecl(fd, f); !ok {
+			ok, why, tailOnly := inlinableDecl(fd, f)
+			if !ok {
 				il.notes = append(il.notes, fmt.Sprintf("new function %s not expanded (%s)", fn.FullName(), why))
 				continue
 			}
-			il.helpers[fn] = &ilHelper{fn: fn, decl: fd, f: f}
+			il.helpers[fn] = &ilHelper{fn: fn, decl: fd, f: f, tailOnly: tailOnly}
 			names = append(names, fn.FullName())
 		}
 	}
@@ -763,11 +789,11 @@ func buildOverlay(dir, root string, newKeys map[string]bool, patterns ...string)
 			if fn, _ := f.pkg.TypesInfo.Defs[fd.Name].(*types.Func); fn != nil && il.helpers[fn] != nil {
 				// the helper's own body is expanded where it is used; inside itself only nested helpers are expanded
 				il.expanding[fn] = true
-				subs = append(subs, il.collectStmts(f, fd.Body.List, nil)...)
+				subs = append(subs, il.collectStmtsT(f, fd.Body.List, nil, true)...)
 				delete(il.expanding, fn)
 				continue
 			}
-			subs = append(subs, il.collectStmts(f, fd.Body.List, nil)...)
+			subs = append(subs, il.collectStmtsT(f, fd.Body.List, nil, true)...)
 		}
 		if len(subs) == 0 {
 			continue
